@@ -11,7 +11,7 @@ pub const RULE: &str = "case = one of (a) a parsed, unedited document (C07's spe
 non-trivial = (b)/(c) with a named node referenced >=2 times, or parent/child namespaces that differ, or a cycle; or (a) with extra attributes; distinct = hash of the rendered/preserved JSON";
 
 /// Share structurally identical pure-unnamed sub-trees between parents (graph-level sharing)
-fn share_unnamed(t: &mut Tape, nodes: &mut Vec<cs::SchemaNode>) -> usize {
+pub fn share_unnamed(t: &mut Tape, nodes: &mut Vec<cs::SchemaNode>) -> usize {
 	fn pure_unnamed_sig(nodes: &[cs::SchemaNode], idx: usize, depth: usize) -> Option<String> {
 		if depth > 6 {
 			return None;
